@@ -229,6 +229,14 @@ fn check(c: &Case, ctx: &Ctx) -> Outcome {
                         let mut args: Vec<String> = vec!["align".into()];
                         args.extend(c06::align_args(fl, n));
                         args.push(file.into());
+                        // every other final alignment is written with -o over an existing, longer file
+                        // (what a re-run after the table shrank does): only the new content may be in it
+                        let to_file = (fi + n) % 2 == 0;
+                        if to_file {
+                            cli::plant_stale_output(&dir.join("final.aln"));
+                            args.push("-o".into());
+                            args.push("final.aln".into());
+                        }
                         desc = args.join(" ");
                         let argv: Vec<&str> = args.iter().map(|s| s.as_str()).collect();
                         let o = run_ska(ctx, &dir, &argv);
@@ -236,7 +244,8 @@ fn check(c: &Case, ctx: &Ctx) -> Outcome {
                             return Err(Outcome::Infra(m));
                         }
                         must_ok(&o, &format!("ska {desc}"))?;
-                        let aln = model::parse_fasta(&o.out_str());
+                        let text = if to_file { std::fs::read_to_string(dir.join("final.aln")).map_err(|e| Outcome::Fail(format!("ska {desc} did not write final.aln: {e}")))? } else { o.out_str() };
+                        let aln = model::parse_fasta(&text);
                         c06::compare_align(&aln, &t, &c06::spec(fl, n)).map_err(|m| Outcome::Fail(format!("ska {desc} after the history: {m}")))?;
                         let cols = model::aln_columns(&aln).map_err(Outcome::Fail)?;
                         (true, cols.concat())
